@@ -178,22 +178,23 @@ def Variant.unmarshal (va : Str) : Res Variant := do
 
 def quote (s : Str) : Str := '"' :: s ++ c!"\""
 
-/-- `MultivariantVariant.marshal` -/
+/-- `MultivariantVariant.marshal`.  Each `if c { ret += X }` of the Go code is written
+    `ret ++ (if c then X else [])`. -/
 def Variant.marshal (v : Variant) : Str :=
-  let ret := c!"#EXT-X-STREAM-INF:BANDWIDTH=" ++ formatInt v.bandwidth
-  let ret := match v.averageBandwidth with
-    | some a => ret ++ c!",AVERAGE-BANDWIDTH=" ++ formatInt a
-    | none => ret
-  let ret := ret ++ c!",CODECS=\"" ++ joinByte ',' v.codecs ++ c!"\""
-  let ret := if v.resolution ≠ [] then ret ++ c!",RESOLUTION=" ++ v.resolution else ret
-  let ret := match v.frameRate with
-    | some f => ret ++ c!",FRAME-RATE=" ++ F64.fmtFixed 3 f
-    | none => ret
-  let ret := if v.video ≠ [] then ret ++ c!",VIDEO=\"" ++ v.video ++ c!"\"" else ret
-  let ret := if v.audio ≠ [] then ret ++ c!",AUDIO=\"" ++ v.audio ++ c!"\"" else ret
-  let ret := if v.subtitles ≠ [] then ret ++ c!",SUBTITLES=\"" ++ v.subtitles ++ c!"\"" else ret
-  let ret := if v.closedCaptions ≠ [] then ret ++ c!",CLOSED-CAPTIONS=\"" ++ v.closedCaptions ++ c!"\"" else ret
-  ret ++ c!"\n" ++ v.uri ++ c!"\n"
+  c!"#EXT-X-STREAM-INF:BANDWIDTH=" ++ formatInt v.bandwidth
+  ++ (match v.averageBandwidth with
+      | some a => c!",AVERAGE-BANDWIDTH=" ++ formatInt a
+      | none => [])
+  ++ (c!",CODECS=\"" ++ joinByte ',' v.codecs ++ c!"\"")
+  ++ (if v.resolution ≠ [] then c!",RESOLUTION=" ++ v.resolution else [])
+  ++ (match v.frameRate with
+      | some f => c!",FRAME-RATE=" ++ F64.fmtFixed 3 f
+      | none => [])
+  ++ (if v.video ≠ [] then c!",VIDEO=\"" ++ v.video ++ c!"\"" else [])
+  ++ (if v.audio ≠ [] then c!",AUDIO=\"" ++ v.audio ++ c!"\"" else [])
+  ++ (if v.subtitles ≠ [] then c!",SUBTITLES=\"" ++ v.subtitles ++ c!"\"" else [])
+  ++ (if v.closedCaptions ≠ [] then c!",CLOSED-CAPTIONS=\"" ++ v.closedCaptions ++ c!"\"" else [])
+  ++ (c!"\n" ++ v.uri ++ c!"\n")
 
 /-! ## EXT-X-MEDIA -/
 
@@ -229,22 +230,22 @@ def Rendition.unmarshal (v : Str) : Res Rendition := do
 
 /-- `MultivariantRendition.marshal` -/
 def Rendition.marshal (t : Rendition) : Str :=
-  let ret := c!"#EXT-X-MEDIA:TYPE=" ++ t.type ++ c!",GROUP-ID=\"" ++ t.groupID ++ c!"\""
-  let ret := if t.language ≠ [] then ret ++ c!",LANGUAGE=\"" ++ t.language ++ c!"\"" else ret
-  let ret := if t.name ≠ [] then ret ++ c!",NAME=\"" ++ t.name ++ c!"\"" else ret
-  let ret := if t.autoselect then ret ++ c!",AUTOSELECT=YES" else ret
-  let ret := if t.default then ret ++ c!",DEFAULT=YES" else ret
-  let ret := if t.forced then ret ++ c!",FORCED=YES" else ret
-  let ret := match t.channels with
-    | some c => ret ++ c!",CHANNELS=\"" ++ c ++ c!"\""
-    | none => ret
-  let ret := match t.uri with
-    | some u => ret ++ c!",URI=\"" ++ u ++ c!"\""
-    | none => ret
-  let ret := match t.inStreamID with
-    | some i => ret ++ c!",INSTREAM-ID=\"" ++ i ++ c!"\""
-    | none => ret
-  ret ++ c!"\n"
+  c!"#EXT-X-MEDIA:TYPE=" ++ t.type ++ c!",GROUP-ID=\"" ++ t.groupID ++ c!"\""
+  ++ (if t.language ≠ [] then c!",LANGUAGE=\"" ++ t.language ++ c!"\"" else [])
+  ++ (if t.name ≠ [] then c!",NAME=\"" ++ t.name ++ c!"\"" else [])
+  ++ (if t.autoselect then c!",AUTOSELECT=YES" else [])
+  ++ (if t.default then c!",DEFAULT=YES" else [])
+  ++ (if t.forced then c!",FORCED=YES" else [])
+  ++ (match t.channels with
+      | some c => c!",CHANNELS=\"" ++ c ++ c!"\""
+      | none => [])
+  ++ (match t.uri with
+      | some u => c!",URI=\"" ++ u ++ c!"\""
+      | none => [])
+  ++ (match t.inStreamID with
+      | some i => c!",INSTREAM-ID=\"" ++ i ++ c!"\""
+      | none => [])
+  ++ c!"\n"
 
 /-! ## Multivariant -/
 
@@ -338,16 +339,14 @@ def Multivariant.unmarshal (buf : Str) : Res Multivariant := do
 
 /-- `Multivariant.Marshal` -/
 def Multivariant.marshal (m : Multivariant) : Str :=
-  let ret := c!"#EXTM3U\n" ++ c!"#EXT-X-VERSION:" ++ formatInt m.version ++ c!"\n"
-  let ret := if m.independentSegments then ret ++ c!"#EXT-X-INDEPENDENT-SEGMENTS\n" else ret
-  let ret := match m.start with
-    | some st => ret ++ st.marshal
-    | none => ret
-  let ret := if m.renditions.length ≠ 0 then
-      ret ++ c!"\n" ++ (m.renditions.map Rendition.marshal).flatten
-    else ret
-  let ret := ret ++ c!"\n"
-  ret ++ (m.variants.map Variant.marshal).flatten
+  c!"#EXTM3U\n" ++ c!"#EXT-X-VERSION:" ++ formatInt m.version ++ c!"\n"
+  ++ (if m.independentSegments then c!"#EXT-X-INDEPENDENT-SEGMENTS\n" else [])
+  ++ (match m.start with
+      | some st => st.marshal
+      | none => [])
+  ++ (if m.renditions.length ≠ 0 then c!"\n" ++ (m.renditions.map Rendition.marshal).flatten else [])
+  ++ c!"\n"
+  ++ (m.variants.map Variant.marshal).flatten
 
 /-! ## playlist.go -/
 
